@@ -314,6 +314,10 @@ def xarray_reduce(
         # https://github.com/pydata/xarray/issues/8819
         kwargs = {"skipna": skipna} if skipna is not None else {}
         kwargs.update(finalize_kwargs)
+        if not hasattr(ds_broad, func):
+            raise NotImplementedError(
+                f"func={func!r} is not supported when reducing along dimensions that are not present in `by`."
+            )
         result = getattr(ds_broad, func)(dim=dim_tuple, **kwargs)
         if isinstance(obj, xr.DataArray):
             return obj._from_temp_dataset(result)
